@@ -57,6 +57,18 @@ CLAIMED.update({
               "§4 C19"),
 })
 
+CLAIMED.update({
+    "C04": _c("static analysis: overflow_digits shape + exact bound for 12 types x 35 radices; SWAR lane constants; gating and error-pairing path conditions on MIR",
+              "radix^overflow_digits(radix) - 1 <= T::MAX for every integer type and radix (so the unchecked prefix cannot wrap); the SWAR validity constants are the per-lane bounds 0x30 <= b < 0x30+radix; every multi-digit fast path is gated on contiguity and radix <= 10; Overflow/Underflow are produced only from the matching failed checked operation on the matching sign branch; '-' yields a negative only under T::IS_SIGNED; iterator steps are guard-dominated. Error precedence and value exactness over all strings are not decided.",
+              "§4 C04", True),
+    "C08": _c("static analysis: writer/parser interface agreement (mixed-base pair sets, MASK/SHIFT instantiations, flag polarity) on MIR",
+              "The float writer's admitted mixed (radix, exponent_base) pairs equal the parser's; every MASK/SHIFT const instantiation is a matching pair of the radix its caller means (mantissa vs exponent); '+' is written only under required_*_sign, scientific notation never under no_exponent_notation and positional never when notation is required; punctuation and special strings come from same-named option getters on both sides. Value equality after the round trip is not decided.",
+              "§4 C08"),
+    "C16": _c("static analysis: cross-configuration comparison of cfg-alternative tables/constants and of the radix-10 dispatch under every feature set",
+              "Every cfg-alternative table, limit, step, divider and constant agrees with the default build on the decimal keys in every analysed feature configuration, and the radix-10 arm of every dispatcher resolves to the same back-end as in the default (resp. compact) build; together with the decimal table rules of C01-C03 running in every configuration. Equality of results is not decided.",
+              "§4 C16", True),
+})
+
 NOT_APPLICABLE = {
     "C06": "Exactness of power-of-two radix float output is arithmetic on runtime exponents (calculate_shl, scale_sci_exp); no table or guard whose truth implies it beyond the digit tables already covered under C03.",
     "C07": "Generic-radix float output is native floating-point digit generation with carry back-tracking; every clause (valid digits, <2048 ulp, exact integers) is a statement about runtime values.",
